@@ -1071,13 +1071,13 @@ Proof.
   - split; [|reflexivity]. cbn. apply framec_alter_vsame; [|apply (wf_dom _ _ _ _ W)]. intros x _. cbn. tauto.
 Qed.
 
-Lemma use_ctx_from_err g : forall ty id first s e s', use_ctx_from g ty id first s = Err e s' -> ~ bad678 e.
+Lemma use_ctx_from_err g : forall ty id first s e s', use_ctx_from true g ty id first s = Err e s' -> ~ bad678 e.
 Proof.
   induction g as [|g IH]; intros ty id first s e s' H; cbn [use_ctx_from] in H.
   - inversion H; subst. notbad.
   - destruct (nodes s !! id) as [nd|].
     + destruct (ctx_find ty (n_context nd)); [discriminate|]. destruct (n_parent nd); [eapply IH; eassumption|discriminate].
-    + inversion H; subst. destruct first; notbad.
+    + destruct first; cbn in H; [inversion H; subst; notbad|discriminate].
 Qed.
 
 Lemma try_use_context_good ty s : WF s -> good s (try_use_context true ty s).
@@ -1363,7 +1363,8 @@ Proof.
     * gvia (set_tracker None s1) W1. apply Hrc; assumption.
     * intros [] s2 _ W2 _. apply good_bind.
       -- gvia (set_tracker (tracker s1) s2) W2. apply Hdl; assumption.
-      -- intros [] s4 _ W4 _. destruct (alive id s4); [|apply good_ok, W4].
+      -- intros [] s4 _ W4 _. destruct (nodes s4 !! id) as [nd'|]; [|apply good_ok, W4].
+         match goal with |- context [if ?b then _ else _] => destruct b end; [apply Hdc, W4|].
          split.
          ++ unfold WF; cbn. apply WFc_alter_neutral; [apply neutral_context'|exact W4].
          ++ split; [|reflexivity]. cbn. apply framec_alter_vsame; [|apply (wf_dom _ _ _ _ W4)]. intros y _. cbn. tauto.
@@ -1514,32 +1515,41 @@ Proof.
   unfold bad678 in G. tauto.
 Qed.
 
-(* together with NoPanic.v: the only place where the fixed runtime can still index a dead node is site 14,
-   the parent walk of try_use_context *)
-Theorem runtime_only_14 : forall f en ss s k s', WF s -> exec true f en ss s = Err (Runtime k) s' -> k = 14%nat.
+(* C11, the headline.  Together with NoPanic.v (all other sites, site 14 included since commit 87c1b28, are guarded
+   or locally unreachable): from a state satisfying the edge invariant the fixed runtime never indexes a dead node
+   and never unwraps a missing callback or value, whatever the program does.  WF is needed for sites 6, 7, 8 only. *)
+Theorem no_runtime_panic : forall f en ss s e s', WF s -> exec true f en ss s = Err e s' -> forall k, e <> Runtime k.
 Proof.
-  intros f en ss s k s' W H. destruct (no_panic_678 _ _ _ _ _ _ W H) as (H6 & H7 & H8).
-  destruct (runtime_sites _ _ _ _ _ _ H) as [-> | [-> | [-> | ->]]]; congruence.
+  intros f en ss s e s' W H k ->. destruct (no_panic_678 _ _ _ _ _ _ W H) as (H6 & H7 & H8).
+  destruct (runtime_sites _ _ _ _ _ _ H) as [-> | [-> | ->]]; congruence.
 Qed.
 
-Theorem exec1_runtime_only_14 : forall f en st s k s', WF s -> exec1 true f en st s = Err (Runtime k) s' -> k = 14%nat.
+Corollary no_runtime_panic_program : forall f prog e s',
+  exec true f root_env prog init_state = Err e s' -> forall k, e <> Runtime k.
+Proof. intros f prog e s'. apply no_runtime_panic, WF_init. Qed.
+
+Theorem no_runtime_panic_exec1 : forall f en st s e s', WF s -> exec1 true f en st s = Err e s' -> forall k, e <> Runtime k.
 Proof.
-  intros f en st s k s' W H.
+  intros f en st s e s' W H k ->.
   pose proof (proj1 (proj2 (good_all f)) en st s W) as G. rewrite H in G. cbn in G. unfold bad678 in G.
   pose proof (proj1 (proj2 (safe_all f)) en st s) as Hs. rewrite H in Hs. cbn in Hs.
-  destruct Hs as [-> | [-> | [-> | ->]]]; tauto.
+  destruct Hs as [-> | [-> | ->]]; tauto.
 Qed.
 
-Corollary program_runtime_only_14 : forall f prog k s',
-  exec true f root_env prog init_state = Err (Runtime k) s' -> k = 14%nat.
-Proof. intros f prog k s'. apply runtime_only_14, WF_init. Qed.
-
-Theorem dispose_runtime_only_14 : forall f id s k s', WF s -> dispose true f id s = Err (Runtime k) s' -> k = 14%nat.
+Theorem no_runtime_panic_dispose : forall f id s e s', WF s -> dispose true f id s = Err e s' -> forall k, e <> Runtime k.
 Proof.
-  intros f id s k s' W H.
+  intros f id s e s' W H k ->.
   destruct (good_all f) as (_&_&_&_&Hd&_). specialize (Hd id s W). rewrite H in Hd. cbn in Hd. unfold bad678 in Hd.
   destruct (safe_all f) as (_&_&_&_&Hs&_). specialize (Hs id s). rewrite H in Hs. cbn in Hs.
-  destruct Hs as [-> | [-> | [-> | ->]]]; tauto.
+  destruct Hs as [-> | [-> | ->]]; tauto.
+Qed.
+
+(* Root::reinit disposes node 0 *)
+Theorem no_runtime_panic_reinit : forall f s e s', WF s -> reinit true f s = Err e s' -> forall k, e <> Runtime k.
+Proof.
+  intros f s e s' W H. unfold reinit in H.
+  destruct (dispose true f 0 s) as [[] s1|e1 s1] eqn:Hd; cbn in H; [discriminate|].
+  inversion H; subst. eapply no_runtime_panic_dispose; eassumption.
 Qed.
 
 (* C04, subscriptions: in every state reachable from the initial one, subscriber lists and dependency lists
@@ -1551,26 +1561,10 @@ Theorem no_stale_edges : forall s, WF s ->
      exists dd, nodes s !! d = Some dd /\ In n (n_dependents dd)).
 Proof. intros s W. split; [apply (wf_sym2 _ _ _ _ W)|apply (wf_sym1 _ _ _ _ W)]. Qed.
 
-(* site 14 is excluded in states where every live node has a live owner -- which is NOT an invariant
-   (see [site14_*] below) *)
-Definition parents_alive (s : state) : Prop :=
-  forall id nd p, nodes s !! id = Some nd -> n_parent nd = Some p -> is_Some (nodes s !! p).
-
-Lemma use_ctx_from_no14 s : parents_alive s -> forall g ty id first e s',
-  (first = false -> is_Some (nodes s !! id)) ->
-  use_ctx_from g ty id first s = Err e s' -> e <> Runtime 14.
-Proof.
-  intros Hp g. induction g as [|g IH]; intros ty id first e s' Hf H; cbn [use_ctx_from] in H.
-  - inversion H; subst. discriminate.
-  - destruct (nodes s !! id) as [nd|] eqn:Hn.
-    + destruct (ctx_find ty (n_context nd)); [discriminate|]. destruct (n_parent nd) as [p|] eqn:Hpar; [|discriminate].
-      eapply IH; [|exact H]. intros _. eapply Hp; eassumption.
-    + inversion H; subst. destruct first; [discriminate|]. destruct (Hf eq_refl). congruence.
-Qed.
-
 Print Assumptions WF_exec.
-Print Assumptions runtime_only_14.
-Print Assumptions program_runtime_only_14.
+Print Assumptions no_runtime_panic.
+Print Assumptions no_runtime_panic_program.
+Print Assumptions no_runtime_panic_dispose.
 Print Assumptions no_stale_edges.
 
 (* ---------------------------------------------------------------------------------- *)
@@ -1607,33 +1601,35 @@ Example wf_prog_runs :
   end.
 Proof. vm_compute. split; reflexivity. Qed.
 
-(* site 14 IS reachable with the fix commits applied.  A cleanup callback of scope 2 runs while scope 2 is
-   still in the table; an effect it creates there (through run_in) becomes a child of scope 2 AFTER the
-   list of children to dispose was taken, so it survives with a dead owner.  When it re-runs, the parent
-   walk of try_use_context indexes the dead owner. *)
+(* site 14, the re-entrant witness: a cleanup callback of scope 2 disposes scope 2 itself; the scope leaves the table
+   while the children that the outer dispose_children took out of it (scope 5) are still alive, and the parent walk of
+   try_use_context started from one of them meets the dead owner.  The pinned code indexes it (site 14); since commit
+   87c1b28 an owner that is gone ends the walk *)
+Definition site14_still : list stmt :=
+  [SScope 2 [SCurScope 4; SScope 5 []; SOnCleanup 1 [SDispose 4; SRunIn 5 [SUseCtx 1]]];
+   SDispose 2].
+Example site14_still_pinned_vs_fixed :
+  match exec false 400 root_env site14_still init_state, exec true 400 root_env site14_still init_state with
+  | Err (Runtime 14) _, Ok _ s => In (EvCtx 1 None) (log s) /\ size (nodes s) = 1%nat /\ wf_b s = true
+  | _, _ => False
+  end.
+Proof. vm_compute. repeat split; try reflexivity. tauto. Qed.
+
+(* the earlier witness (a cleanup creates an effect in the scope being disposed): the pinned code reaches site 14,
+   the repaired code disposes the late child as well *)
 Definition site14_prog : list stmt :=
   [SSignal 1 (Lit 0);
    SScope 2 [SCurScope 4; SOnCleanup 1 [SRunIn 4 [SEffect 5 (Body None [SUseCtx 1] (Get 1))]]];
    SDispose 2;
    SSet 1 (Lit 1)].
-Example site14_reached :
-  match exec true 400 root_env site14_prog init_state with
-  | Err (Runtime 14) _ => True
-  | _ => False
+Example site14_prog_pinned_vs_fixed :
+  match exec false 400 root_env site14_prog init_state, exec true 400 root_env site14_prog init_state with
+  | Err (Runtime 14) _, Ok _ s => size (nodes s) = 2%nat /\ reachable s = 2%nat /\ wf_b s = true
+  | _, _ => False
   end.
-Proof. vm_compute. exact I. Qed.
+Proof. vm_compute. repeat split; reflexivity. Qed.
 
-(* the state before the last statement is well-formed, but a live node has a dead owner *)
-Example site14_orphan :
-  match exec true 400 root_env (firstn 3 site14_prog) init_state with
-  | Ok _ s => wf_b s = true /\
-              exists id nd p, nodes s !! id = Some nd /\ n_parent nd = Some p /\ nodes s !! p = None
-  | Err _ _ => False
-  end.
-Proof. vm_compute. split; [reflexivity|]. exists 3%nat. eexists. exists 2%nat. repeat split. Qed.
-
-(* the same without run_in: an effect that registers a cleanup and then disposes itself; the cleanup runs
-   with the dying effect as current owner *)
+(* the variant without run_in (an effect registers a cleanup that creates an effect, then disposes itself) *)
 Definition site14_prog' : list stmt :=
   [SSignal 1 (Lit 0); SSignal 9 (Lit 0);
    SEffect 2 (Body None [SCurScope 4;
@@ -1641,9 +1637,9 @@ Definition site14_prog' : list stmt :=
                          SIf (Get 9) [SDispose 4] []] (Lit 0));
    SSet 9 (Lit 1);
    SSet 1 (Lit 1)].
-Example site14_reached' :
+Example site14_prog'_fixed :
   match exec true 400 root_env site14_prog' init_state with
-  | Err (Runtime 14) _ => True
+  | Ok _ s => size (nodes s) = reachable s /\ wf_b s = true
   | _ => False
   end.
-Proof. vm_compute. exact I. Qed.
+Proof. vm_compute. split; reflexivity. Qed.
